@@ -75,6 +75,18 @@ func failFuncs() map[string]jet.Func {
 		"strpanicfn": func(a jet.Arguments) reflect.Value {
 			panic("plain string panic from a user function")
 		},
+		// a user function that reports a failure of its own, with the low-level error it ran into attached as the
+		// cause (%w): an error value like any other, not a Go runtime error of the engine
+		"wrappedfn": func(a jet.Arguments) reflect.Value {
+			var cause error
+			func() {
+				defer func() { cause, _ = recover().(error) }()
+				var rows []int
+				_ = rows[a.NumOfArguments()+3]
+			}()
+			panic(fmt.Errorf("wrappedfn: lookup failed: %w", cause))
+		},
+		"apiYield": c18Funcs()["apiYield"],
 		// a jet.Func that tolerates whatever it is handed (also an invalid piped value)
 		"passthru": func(a jet.Arguments) reflect.Value {
 			if a.NumOfArguments() > 0 {
@@ -133,7 +145,7 @@ func (g *c13Gen) path(depth int, inner []*mj.Node) []*mj.Node {
 	g.decls = append(g.decls, decl)
 	body := append([]*mj.Node{mj.Let(decl, mj.Str("x")), mj.Text("(.="), mj.Print(mj.Dot()), mj.Text(")")}, in...)
 	var mid []*mj.Node
-	k := g.n(0, 8, "pathkind")
+	k := g.n(0, 9, "pathkind")
 	switch k {
 	case 0:
 		g.labels["below:range-context"] = true
@@ -175,6 +187,12 @@ func (g *c13Gen) path(depth int, inner []*mj.Node) []*mj.Node {
 		}
 		g.p.Files = append(g.p.Files, f)
 		mid = []*mj.Node{{K: "include", E: mj.Str(f.Path), Ctx: mj.Str(g.id("ictx"))}}
+	case 9:
+		// a Go helper renders a block for a value of its own (Runtime.YieldBlock with a context)
+		g.labels["below:block-yielded-by-a-go-helper"] = true
+		name := g.id("api")
+		g.lib.Body = append(g.lib.Body, &mj.Node{K: "block", Name: name, Body: body})
+		mid = []*mj.Node{mj.Print(mj.Call("apiYield", mj.Str(name), mj.Str(g.id("apictx"))))}
 	default:
 		g.labels["below:inner-try"] = true
 		// an inner try that fails and is handled, then the path goes on; or an inner try whose catch fails
@@ -280,6 +298,11 @@ func genC13(t *rapid.T) c13Case {
 	failVars(g.p)
 	d := mj.RStr("CTX")
 	g.p.Data = &d
+	if g.n(0, 4, "executeWithoutData") == 0 {
+		// Execute(w, vars, nil): "no context" is a state a failed try body has to give back like any other
+		g.p.Data = nil
+		g.labels["executed-without-data"] = true
+	}
 	g.lib = &mj.File{Path: "/lib.jet", Body: []*mj.Node{
 		{K: "block", Name: "wrap", Params: []mj.Param{{Name: "wp", E: mj.Str("wd")}}, Body: []*mj.Node{mj.Text("{w:"), {K: "ycontent"}, mj.Text(":w}")}},
 	}}
@@ -338,7 +361,7 @@ func genC13(t *rapid.T) c13Case {
 }
 
 func judgeC13(c c13Case) (v core.Verdict) {
-	want, discard := mj.ModelRun(c.Prog, nil)
+	want, discard := mj.ModelRun(c.Prog, c18ModelSetup)
 	if discard != "" {
 		v.Discard = "model:" + discard
 		return
